@@ -216,7 +216,7 @@ def config(rng, supported_bias=0.85):
     c["data_width"] = rng.choice([79, 79, 20, 25, 40, 60, 80, 120, 200, rng.randint(20, 200)])
     c["header_width"] = rng.choice([60, 60, 60, 40, 80, 5])
     c["mnemonics_header"] = rng.random() < 0.4
-    c["data_section_header"] = rng.choice(["~ASCII", "~A", "~ASCII", "~A"])
+    c["data_section_header"] = rng.choice(["~ASCII", "~A", "~ASCII", "~A", "~AsciiLog", "~ASCIIDATA", "~ALOG", "~Analog", "~a", "~ascii log", "~A DEPT GR", "~Acquired data"])
     return c
 
 
